@@ -19,6 +19,7 @@ a symbolic value (digit strings are z3 arrays, so a read at the wrong index is v
 """
 import sys
 import os
+import re
 sys.path.insert(0, os.path.dirname(os.path.dirname(os.path.abspath(__file__))))
 sys.path.insert(0, os.path.dirname(os.path.abspath(__file__)))
 
@@ -384,7 +385,8 @@ def wnaf_stub(I, arrays, sizes, maxbits, index_term=None, dmax=15, first_case=No
     I.add_intercept(B + r"WnafScalar<\d+, \du>::from_bigint\(.*\)", h, "from_bigint")
 
 
-def ob_endomorphism_loop():
+def ob_endomorphism_loop(alias=False):
+    """alias: the output object is the base object (p.multiply_endomorphism(p, ...))"""
     P = prog()
     fname = P.find1(B + r"G1::multiply_endomorphism\(" + B + r"G1 const&, " + CORE + r"BigInt<256> const&, bool, " + CORE + r"BigInt<256> const&, bool\)")
     fn = P.fn[fname]
@@ -441,7 +443,7 @@ def ob_endomorphism_loop():
         del sizes[:]
         I.assumptions = list(base_assumptions)
         res = Obj("result", 144, "arg", 16)
-        a = Obj("a", 144, "arg", 16, True)
+        a = res if alias else Obj("a", 144, "arg", 16, True)
         a.cells[0] = (144, Mul(1))
         c0 = Obj("c0", 32, "arg", 16, True)
         c1 = Obj("c1", 32, "arg", 16, True)
@@ -500,7 +502,7 @@ def ob_endomorphism_loop():
     return {"queries": nq, "paths": npaths, "functions": [P.demangled[fname][:120]], "sample": "one inductive step: %d paths over signs, digit signs, table entries" % npaths}
 
 
-def ob_frobenius_loop(first_case=None):
+def ob_frobenius_loop(first_case=None, alias=False):
     P = prog()
     fname = P.find1(B + r"G2::multiply_frobenius\(" + B + r"G2 const&, " + B + r"PowersOfX const&\)")
     fn = P.fn[fname]
@@ -548,7 +550,7 @@ def ob_frobenius_loop(first_case=None):
         del sizes[:]
         I.assumptions = list(base_assumptions)
         res = Obj("result", 288, "arg", 16)
-        a = Obj("a", 288, "arg", 16, True)
+        a = res if alias else Obj("a", 288, "arg", 16, True)
         a.cells[0] = (288, Mul(1))
         sc = Obj("scalar", 64, "arg", 16, True)
         state["res"] = res
@@ -763,6 +765,100 @@ def ob_glv():
             "sample": "%d paths (k < r / k >= r, rounding and sign cases); products by constants linear, division by r via the reciprocal constant" % n}
 
 
+def ob_compose(alias=False):
+    """the wrappers around the proved pieces: wnaf_multiply = fill_table(a); from_bigint(power); wnaf_table_multiply(result, table, digits) with the table
+    and the digit string in locals, completed before the result is written; multiply_wnaf forwards its operands to wnaf_multiply;
+    multiply_doubleadd runs multiply_doubleadd_restrict on a private copy of the base.  alias: the result object is the base object (where the
+    types allow it) - the order 'table first, result last' and the private copy are what make that safe."""
+    P = prog()
+    fns = []
+    n = 0
+
+    def run(fname, nargs_extra=()):
+        f = P.fn[fname]
+        I = eir.Interp(P)
+        calls = []
+
+        def rec(I_, name, args, site):
+            d = I_.prog.demangled.get(name, name)
+            if d.startswith("llvm."):
+                return None
+            snap = None
+            if "multiply_doubleadd_restrict" in d and isinstance(args[1], Ptr):
+                c = args[1].obj.cells.get(args[1].off)
+                snap = c[1] if c else None
+            calls.append((d, list(args), snap))
+        I.add_intercept(r"(?!llvm\.|memcpy|memmove|memset).*", rec, "callee")
+        sz0 = f.params[0].attrs.get("dereferenceable", 288)
+        sz1 = f.params[1].attrs.get("dereferenceable", 288)
+        out = Obj("result", sz0, "arg", 16)
+        same_type = repr(f.params[0].ty) == repr(f.params[1].ty)
+        if alias and not same_type:
+            return None
+        base = out if alias else Obj("base", (sz1 + 15) // 16 * 16, "arg", 16, True)     # affine points: dereferenceable(97/193), sizeof 112/208
+        base.cells[0] = (sz1 - (15 if sz1 in (112, 208) else 0), Mul(1))
+        sc = Obj("scalar", 64, "arg", 16, True)
+        args = [Ptr(out, 0), Ptr(base, 0), Ptr(sc, 0)] + list(nargs_extra)
+        I.call_function(f, args)
+        return calls, args
+
+    def same(x, y):
+        return isinstance(x, Ptr) and isinstance(y, Ptr) and x.obj is y.obj and x.off == y.off
+    for fname in sorted(P.fn):
+        d = P.demangled.get(fname, fname)
+        f = P.fn[fname]
+        if f.is_decl:
+            continue
+        if re.match(r"void " + re.escape(B) + r"wnaf_multiply<.*>\(.*BigInt<\d+> const&\)", d):
+            r = run(fname)
+            if r is None:
+                continue
+            calls, args = r
+            n += 1
+            fns.append(d[:100])
+            names = [c[0] for c in calls]
+            ok = len(calls) == 3 and "::fill_table<" in names[0] + names[1] and "::from_bigint(" in names[0] + names[1] and "wnaf_table_multiply<" in names[2]
+            if ok:
+                ft = calls[0] if "::fill_table<" in names[0] else calls[1]
+                fb = calls[1] if ft is calls[0] else calls[0]
+                tm = calls[2]
+                ok = (same(ft[1][1], args[1]) and same(fb[1][1], args[2]) and same(tm[1][0], args[0]) and same(tm[1][1], ft[1][0]) and same(tm[1][2], fb[1][0])
+                      and ft[1][0].obj.kind == "alloca" and fb[1][0].obj.kind == "alloca" and ft[1][0].obj is not fb[1][0].obj)
+            if not ok:
+                raise Violation("compose:wnaf_multiply", "%s is not fill_table(base); from_bigint(scalar); wnaf_table_multiply(result, table, digits) on local table/digits: %r"
+                                % (d[:90], [c[:60] for c in names]), {"alias": alias})
+        elif re.match(r"void " + re.escape(B) + r"Projective<.*>::multiply_wnaf<.*, " + re.escape(CORE) + r"BigInt<\d+>, 4u>\(.*\)", d):
+            r = run(fname)
+            if r is None:
+                continue
+            calls, args = r
+            n += 1
+            fns.append(d[:100])
+            ok = len(calls) == 1 and "wnaf_multiply<" in calls[0][0] and all(same(x, y) for x, y in zip(calls[0][1], args))
+            if not ok:
+                raise Violation("compose:multiply_wnaf", "%s does not forward (this, base, scalar) to wnaf_multiply: %r" % (d[:90], [c[0][:60] for c in calls]), {"alias": alias})
+        elif re.match(r"void " + re.escape(B) + r"Projective<.*>::multiply_doubleadd<.*>\(.*\)", d):
+            hb = z3.BitVec("highest_bit", 32)
+            r = run(fname, [hb])
+            if r is None:
+                continue
+            calls, args = r
+            n += 1
+            fns.append(d[:100])
+            real = [c for c in calls if "multiply_doubleadd_restrict" in c[0]]
+            ok = len(real) == 1 and same(real[0][1][0], args[0]) and same(real[0][1][2], args[2]) and z3.is_expr(real[0][1][3]) and z3.simplify(real[0][1][3] == hb).eq(z3.BoolVal(True))
+            if ok:
+                b = real[0][1][1]
+                ok = b.obj.kind == "alloca" and b.obj is not args[0].obj and isinstance(real[0][2], Mul) and real[0][2].e == 1
+            if not ok:
+                raise Violation("compose:multiply_doubleadd", "%s does not run multiply_doubleadd_restrict(this, private copy of the base, scalar, highest_bit): %r"
+                                % (d[:90], [(c[0][:60], c[2]) for c in calls]), {"alias": alias})
+    if n < (1 if alias else 8):
+        raise Inconclusive("only %d wrapper instantiations found" % n)
+    return {"queries": n, "paths": n, "functions": fns[:12], "sample": "%d wrapper instantiations%s" % (n, " with result == base" if alias else "")}
+
+
+
 def ob_dispatch():
     P = build.load_program("A", files=["src/bls12_381/bls12_381.cpp", "src/bls12_381/curve_fast_multiply.cpp", "src/lqibe/api.cpp"], tag="c06_dispatch")
     want = [
@@ -809,7 +905,7 @@ def ob_dispatch():
             raise Inconclusive("%s: %d definitions" % (label, len(cands)))
         I = eir.Interp(P2)
         calls = []
-        I.add_intercept(r".*", lambda I_, name, args, site, calls=calls: calls.append((I_.prog.demangled.get(name, name), list(args))), "callee")
+        I.add_intercept(r"(?!llvm\.|memcpy|memmove|memset).*", lambda I_, name, args, site, calls=calls: calls.append((I_.prog.demangled.get(name, name), list(args))), "callee")
         args = [Ptr(Obj("arg%d" % i, 1024, "arg", 16), 0) for i in range(3)]
         I.call_function(P2.fn[cands[0]], list(args))
         fns.append(P2.demangled[cands[0]][:90])
@@ -877,6 +973,7 @@ def register(chk):
         chk.add("loop:frobenius:first-digit-%s" % case, ob_frobenius_loop, case)
     chk.add("glv:decompose_lambda", ob_glv)
     chk.add("dispatch", ob_dispatch)
+    chk.add("compose:wrappers", ob_compose)
     chk.add("eigen", ob_eigen)
     import c07
     chk.add("powersofx:decompose", c07.ob_decompose, "A")
